@@ -116,7 +116,7 @@ def cli_args(args):
 
 # ------------------------------------------------------------------ running the implementation
 
-def run_laze(d, args, extra_env=None, global_mode=True, timeout=20, task=None, cwd=None, generate_only=True, more=()):
+def run_laze(d, args, extra_env=None, global_mode=True, timeout=20, task=None, cwd=None, generate_only=True, more=(), binary=None):
     env = dict(os.environ)
     env.update({"LAZE_VERIF_DUMP": os.path.join(d, ".dump.jsonl")})
     for k in list(env):
@@ -126,7 +126,7 @@ def run_laze(d, args, extra_env=None, global_mode=True, timeout=20, task=None, c
             del env[k]
     if extra_env:
         env.update(extra_env)
-    cmd = [common.LAZE, "-C", cwd or d, "build"]
+    cmd = [binary or common.LAZE, "-C", cwd or d, "build"]
     if global_mode:
         cmd.append("-g")
     if generate_only:
